@@ -531,7 +531,13 @@ def check_case(case, ctx):
                 if diff:
                     ctx.fail("rollback:" + tag, "%s raised %r but %s changed: %r -> %r" % (
                         where, raised, diff[0], before[diff[0]], after[diff[0]]))
-                    return
+                    # put the previous values back through the public API so that the rest of the history is still
+                    # checked from a state the listeners have seen
+                    try:
+                        opts.update(**{n: before[n] for n in diff})
+                    except Exception:
+                        return
+                    continue
                 for who, seen in lis.seen.items():
                     if seen:
                         last = seen[-1][1]
